@@ -9,7 +9,7 @@ R = "/repo/src/lenskit"; G = os.path.join(ROOT, "lean", "LK", "Generated")
 out = {f"Guards{pid}.lean": g.generate(pid, R) for pid in sorted(g.SITES)}
 out.update({"NpC08.lean": py2lean_np.translate_learn(R), "NpC06.lean": py2lean_np.translate_dcg(R), "ScatterC04.lean": py2lean_scatter.generate(R),
             "ImpC08.lean": py2lean_imp.translate(R), "HoldoutC05.lean": py2lean_holdout.generate(R), "ArrowC17.lean": py2lean_arrow.translate(R),
-            "ArrowScalarC17.lean": py2lean_arrow.translate_scalar(R), "CandC03.lean": py2lean_cand.translate(R), "NegC20.lean": py2lean_neg.translate(R), "AlsC10.lean": py2lean_als.generate(R), "AggC07.lean": py2lean_agg.generate(R), "RankC06.lean": py2lean_rank.generate(R), "ImpC19.lean": py2lean_imp.translate_linear(R),
+            "ArrowScalarC17.lean": py2lean_arrow.translate_scalar(R), "CandC03.lean": py2lean_cand.translate(R), "NegC20.lean": py2lean_neg.translate(R), "AlsC10.lean": py2lean_als.generate(R), "AggC07.lean": py2lean_agg.generate(R), "RankC06.lean": py2lean_rank.generate(R), "ImpC19.lean": py2lean_imp.translate_linear(R), "RowPtrsC01.lean": py2lean_arrow.translate_rowptrs(R),
             "Chunking.lean": py2lean.translate(R + "/parallel/chunking.py", "WorkChunks", "create", "chunkCreate", "LK.Gen.Chunking")})
 bad = [f for f, t in out.items() if open(os.path.join(G, f)).read() != t]
 extra = sorted(set(os.listdir(G)) - set(out) - {"WiringC03.lean", "SaveTraceC15.lean", "BatchTraceC12.lean"})          # (these are produced by running lenskit; ./check C03 / C15 / C12 rewrites them)
